@@ -98,6 +98,18 @@ REGISTRY = {
         'assumptions': ['NAME fields within their J1939-81 ranges', 'encoder entries use the four supported addresses'],
         'trusted': ['modelled, not verified: j1939::NameBuilder/Name::to_bytes, protocol::request/address_claimed, toml/serde deserialisation, chrono time for the time/date reply'],
     },
+    'C15': {
+        'rule': 'real Runtime::schedule_net_service (the real command task and broadcast channel) with a recording, gated mock NetworkService and a producer Service that hands the real CommandSender to the harness, on a current-thread runtime (tasks run only when the harness yields): bursts of 1,2,15,16,17,18,31,32,33,40,100,1000 commands + a final stop-all x handler idle / holding one / holding after two x 0/1/5 granted completions x 1-2 networks, then drained; '
+                'random schedules of send / grant / run-until-blocked with four relative speeds (3k quick / 30k thorough); processed commands per network compared with the extracted model (micro-step semantics of the bus and the task loop); C15 predicate on the real observation: processed is an in-order subsequence of sent, after draining the last min(16,n) sent commands (incl. the stop-all) were processed, and nothing is lost when at most 16 were sent between quiescence points; '
+                'non-trivial = a burst above the capacity; distinct by case text',
+        'exhaustive': {'quick': False, 'thorough': False},
+        'level_text': 'Theorems C15_in_order_subsequence, C15_newest_survive (once the handler has caught up, every one of the last cap commands - in particular the final one - has been processed), C15_no_lag_no_loss, C15_lag_does_not_stop and C15_send_always_enabled are proved for EVERY schedule (any interleaving of any number of producers\' sends with the handler\'s recv / on_command micro-steps), every capacity > 0 and every value type, by an invariant over positions in the send history; the model of tokio broadcast + the command task is tied to the real Runtime by differential execution of exact schedules.',
+        'level_note': 'partial: tokio 1.43 broadcast (capacity exactly 16, Lagged(n) then the oldest retained value, non-blocking send) is a validated model, not verified code; wall-clock fairness of the multi-thread scheduler is outside the model (every interleaving is covered instead). Several networks are independent receivers of the same history, so the per-handler theorems apply to each. Trusted: kernel, extraction, drv.ml, harness.',
+        'technique': 'Rocq proof (ring-buffer/cursor invariant over all schedules, subsequence lemma by induction) + exact-schedule correspondence on the real Runtime',
+        'explanation': 'five theorems in Properties/C15.v',
+        'assumptions': ['handlers are the command tasks spawned by schedule_net_service; producers only call Sender::send'],
+        'trusted': ['modelled, not verified: tokio::sync::broadcast, tokio task scheduling'],
+    },
     'C17': {
         'rule': 'real Filter::matches (accept and reject policy): empty list, every single item over all 16 specified-field combinations x every hit/miss pattern against 68 identifiers covering PDU1/PDU2, priorities, addresses; 2- and 3-item lists sampled (30k quick / 400k thorough per policy) biased towards fully matching entries; '
                 'real CANSocket::send through the verif seam: the raw 16-byte can_frame datagram for every length 0..8 and id-bit class; real CANSocket::recv + ControlNetwork::recv on injected raw frames for every DLC 0..8 and can_id with bits 29/30/31 set or clear (2k quick / 20k thorough each); results vs extracted model, property predicates evaluated on the real outputs; non-trivial = non-empty filter or marshalling case; distinct by case text',
